@@ -5,6 +5,7 @@ import Rawr.Model.Search
 import Rawr.Model.UciMove
 import Rawr.Model.Fen
 import Rawr.Model.Uci
+import Rawr.Spec.Fen
 /-! Line-protocol driver: one request per line in, one canonical line out.
 Model requests have the same names as the harness (`hx`) requests; specification (oracle) requests
 start with `s`; generator requests start with `g`. -/
@@ -87,6 +88,18 @@ def handleModel (cmd : String) (p : Position) (rest : List String) : String :=
       | none => "bad-op"
   | "valid", _ => (match p.validate with | none => "ok" | some e => e)
   | "flip", _ => showPos p.flip
+  | "perft", [d] => (match perft (nat! d) p with | some n => toString n | none => "PANIC")
+  | "feat", _ =>
+      let q := prelude p
+      let ms := moveGenerator p
+      let promos := (ms.filter fun g => g.mv.promo != 6).length
+      let castles := (ms.filter fun g => p.c0.isSet g.mv.dst).length
+      let eps := (ms.filter fun g => g.piece == 0 && p.ep == some g.mv.dst).length
+      s!"chk={count q.allAttackers} pin={count q.pinned} ep={showB p.ep.isSome} epm={eps} cr={(if p.usK then 1 else 0) + (if p.usQ then 1 else 0)} n={ms.length} caps={(legalCaptures p).length} promo={promos} castle={castles}"
+  | "apply", [t] =>
+      (match applyToken p [] t.toList with
+       | none => "PANIC"
+       | some (q, h, o) => s!"{showPos q} u={showB (!o.isEmpty)} h={h.length}")
   | _, _ => "bad-op"
 
 def handleSpec (cmd : String) (p : Position) (rest : List String) : String :=
@@ -103,6 +116,18 @@ def handleSpec (cmd : String) (p : Position) (rest : List String) : String :=
       showB (Spec.attackedBy a.board (if b01 t then p.black else !p.black) (absSq p.black (nat! s)))
   | "scheck", _ => s!"{showB (Spec.inCheck a.board a.whiteToMove)} {showB (Spec.inCheck a.board (!a.whiteToMove))}"
   | "sleaves", [d] => toString (Spec.leaves a (nat! d))
+  | "sfen", [st] =>
+      String.ofList (Spec.printFen a (match st with | "s" => .shredder | "k" => .kqkq | _ => .xfen))
+  | "qmin", _ =>
+      -- plain minimax over the capture tree, successors and captures by the specification
+      let rec qm (fuel : Nat) (q : Position) : Int :=
+        match fuel with
+        | 0 => eval q
+        | fuel + 1 =>
+          let aq := GenPos.freeze (abs q)
+          let caps := (Spec.legalMoves aq).filter (Spec.isCaptureMove aq)
+          caps.foldl (fun best m => max best (-(qm fuel (rel (Spec.apply aq m) q.frc)))) (eval q)
+      toString (qm 40 p)
   | "sind", _ => s!"{showB (ValidPos p)} {showB (Spec.EpConsistent a)} {showB (Spec.LegalMaterial a)}"
   | _, _ => "bad-op"
 
@@ -171,6 +196,36 @@ def handleSearch (cmd : String) (p : Position) (r : List String) : String :=
          s!"{bm} hist={showB (res.hist == h)} pos=1 infos={infos} tt={ttImage res.tt}")
   | _, _ => "bad-op"
 
+def ttEntryOf (v : Nat) : TTEntry :=
+  ⟨BitVec.ofNat 64 v, ⟨v % 64, (v / 64) % 64, (v / 4096) % 7⟩, (v % 2001 : Nat) - 1000, (v % 17 : Nat), v % 3⟩
+
+def showTTE (e : TTEntry) : String :=
+  s!"{e.hash.toNat},{e.mv.src},{e.mv.dst},{e.mv.promo},{e.score},{e.depth},{e.flag}"
+
+def ttOps {α : Type} [Inhabited α] [DecidableEq α] (esz : Nat) (mk : Nat → α) (sh : α → String)
+    (mb : Nat) (ops : List String) : String :=
+  let t0 : Table α := Table.new mb esz
+  let step (st : Table α × List String) (op : String) : Table α × List String :=
+    let (t, out) := st
+    match op.splitOn ":" with
+    | ["a", k, v] => (match t.add (nat! k) (mk (nat! v)) with
+        | some t' => (t', out ++ ["ok"]) | none => (t, out ++ ["PANIC"]))
+    | ["p", k] => (match t.poll (nat! k) with
+        | some e => (t, out ++ [sh e]) | none => (t, out ++ ["PANIC"]))
+    | ["c"] => (t.clear, out ++ ["ok"])
+    | ["r", m] => let t' := t.resize (nat! m) esz; (t', out ++ [s!"l{t'.len}"])
+    | ["h"] => (t, out ++ [match t.hashfull with | some h => toString h | none => "none"])
+    | ["l"] => (t, out ++ [s!"l{t.len}"])
+    | _ => (t, out ++ ["bad-op"])
+  let (_, out) := ops.foldl step (t0, [s!"l{t0.len}"])
+  " ".intercalate out
+
+def handleTT (t : List String) : String :=
+  match t with
+  | "tt" :: "u64" :: mb :: ops => ttOps 8 (fun v => v) (fun (v : Nat) => toString v) (nat! mb) ops
+  | "tt" :: _ :: mb :: ops => ttOps Gen.ttEntrySize ttEntryOf showTTE (nat! mb) ops
+  | _ => "bad-op"
+
 def handleSlide (t : List String) : String :=
   match t with
   | ["slide", "b", s, o] => toString (bishopMoves (nat! s) (bb! o)).toNat
@@ -203,6 +258,34 @@ def handleGen (t : List String) : List String :=
     go (nat! n) (GenPos.Rng.mk' (nat! seed)) []
   | ["gsparse", seed, n, frc] =>
     ((GenPos.sparse (nat! n) (GenPos.Rng.mk' (nat! seed)) (b01 frc)).1).map showPos
+  | ["ggames", seed, n, plies, nullProb, frc] =>
+    let rec goG (k : Nat) (r : GenPos.Rng) (acc : List String) : List String :=
+      match k with
+      | 0 => acc
+      | k + 1 =>
+        let (st, r) := GenPos.randomStart r (b01 frc)
+        let (pi, r) := r.below GenPos.policies.length
+        let (ps, r) := GenPos.playout st (GenPos.policies.getD pi .uniform) (nat! plies) (nat! nullProb) r [st]
+        goG k r (acc ++ ["#"] ++ ps.reverse.map showPos)
+    goG (nat! n) (GenPos.Rng.mk' (nat! seed)) []
+  | ["gsgames", seed, n, plies, frc] =>
+    -- playouts from sparse constructed positions (endgames: repetitions, high clocks, mates)
+    let (starts, r) := GenPos.sparse (nat! n) (GenPos.Rng.mk' (nat! seed)) (b01 frc)
+    let rec goS (l : List Position) (r : GenPos.Rng) (acc : List String) : List String :=
+      match l with
+      | [] => acc
+      | st :: l =>
+        let (pi, r) := r.below 2
+        let (ps, r) := GenPos.playout st (if pi == 0 then .shuffle else .kingwalk) (nat! plies) 0 r [st]
+        goS l r (acc ++ ["#"] ++ ps.reverse.map showPos)
+    goS starts r []
+  | ["gmate", seed, n, frc] =>
+    let (cands, _) := GenPos.sparse (nat! n) (GenPos.Rng.mk' (nat! seed)) (b01 frc)
+    (cands.filter fun p =>
+      p.halfmoves < 99 && (legalMoves p).any fun m =>
+        match p.makemove m true with
+        | some q => (legalMoves q).isEmpty && q.inCheck
+        | none => false).map showPos
   | ["gstart", n, m, frc] =>
     [showPos (rel (GenPos.startFrom (GenPos.backRank960 (nat! n)) (GenPos.backRank960 (nat! m))) (b01 frc))]
   | _ => ["bad-op"]
@@ -245,6 +328,8 @@ def handle (line : String) : List String :=
   | cmd :: rest =>
     if cmd.startsWith "g" && cmd != "gen" && cmd != "getatt" then handleGen t
     else if ["slide", "leap", "kn", "pw", "adj", "ray"].contains cmd then [handleSlide t]
+    else if cmd == "tt" then [handleTT t]
+    else if cmd == "ttsize" then [toString Gen.ttEntrySize]
     else
       match parsePos rest with
       | none => ["bad-op"]
